@@ -182,6 +182,17 @@ Definition cf_mode_of (c : cf_cfg) : cf_mode :=
   else if beq (cf_ssomode c) cf_lit_proxy then CfSSOProxy
   else CfSSOInvalid.
 
+(** * Code variants (lib/code_flags.json says which one the current tree has; DESIGN.md 0.3)
+    [cf_v_key_strict]      fix 9e1f3d0: only an EMPTY key setting generates a key; anything else must decode to 32 bytes
+                           (old: any string decoding to zero bytes, e.g. a lone line feed, counted as "no key")
+    [cf_v_wait_nonneg]     fix 164dd13: Config.Validate refuses shutdown-wait-before-period < 0
+    [cf_v_ingress_strict]  fix 9040a49: ParseIngress refuses a path containing '*', '{' or '}' (old: router.New panicked
+                           on a malformed chi pattern, and /{id} started as a route parameter) *)
+Record cf_variant := mk_cf_variant {
+  cf_v_key_strict : bool; cf_v_wait_nonneg : bool; cf_v_ingress_strict : bool }.
+Definition cf_cur : cf_variant := mk_cf_variant true true true.
+Definition cf_old : cf_variant := mk_cf_variant false false false.
+
 (** * Error classes (0 = the process listens) *)
 Definition cf_E_flag : positive := 1%positive.        Definition cf_E_decode : positive := 2%positive.
 Definition cf_E_samesite : positive := 10%positive.   Definition cf_E_insec_parse : positive := 11%positive.
@@ -202,6 +213,8 @@ Definition cf_E_redis : positive := 51%positive.      Definition cf_E_noingress 
 Definition cf_E_ing_empty : positive := 53%positive.  Definition cf_E_ing_parse : positive := 54%positive.
 Definition cf_E_ing_host : positive := 55%positive.   Definition cf_E_ing_scheme : positive := 56%positive.
 Definition cf_E_route : positive := 60%positive.
+Definition cf_E_wait_neg : positive := 25%positive.
+Definition cf_E_ing_pattern : positive := 57%positive.
 
 Definition cf_mem (x : bytes) (l : list bytes) : bool := existsb (beq x) l.
 
@@ -264,14 +277,15 @@ Definition cf_upstream_validate (c : cf_cfg) : option positive :=
   else if (cf_upport c <? 1)%Z || (65535 <? cf_upport c)%Z then Some cf_E_up_range
   else None.
 
-Definition cf_periods_validate (c : cf_cfg) : option positive :=
-  if (cf_graceful c <=? cf_waitbefore c)%Z then Some cf_E_periods else None.
+Definition cf_periods_validate (v : cf_variant) (c : cf_cfg) : option positive :=
+  if cf_v_wait_nonneg v && (cf_waitbefore c <? 0)%Z then Some cf_E_wait_neg
+  else if (cf_graceful c <=? cf_waitbefore c)%Z then Some cf_E_periods else None.
 
 Definition cf_seq (a b : option positive) : option positive := match a with Some e => Some e | None => b end.
 
-Definition cf_validate (c : cf_cfg) : option positive :=
+Definition cf_validate (v : cf_variant) (c : cf_cfg) : option positive :=
   cf_seq (cf_cookie_validate c) (cf_seq (cf_openid_validate c) (cf_seq (cf_sso_validate c)
-    (cf_seq (cf_upstream_validate c) (cf_periods_validate c)))).
+    (cf_seq (cf_upstream_validate c) (cf_periods_validate v c)))).
 
 (** * EncryptionKeyOrGenerate: base64.StdEncoding.DecodeString, length of the result *)
 
@@ -300,12 +314,20 @@ Fixpoint cf_b64_len_aux (s : bytes) (j n : N) : option N :=
   end.
 Definition cf_b64_len (s : bytes) : option N := cf_b64_len_aux s 0 0.
 
-(* a decode error is fatal only for a non-empty string (always the case); zero decoded bytes generate a key *)
-Definition cf_key_check (k : bytes) : option positive :=
-  match cf_b64_len k with
-  | None => if is_empty k then None else Some cf_E_key_decode
-  | Some n => if (n =? 0) || (n =? 32) then None else Some cf_E_key_length
-  end.
+(* old: a decode error is fatal only for a non-empty string (always the case); zero decoded bytes generate a key.
+   current: only the empty string generates a key; everything else must decode, to exactly 32 bytes *)
+Definition cf_key_check (v : cf_variant) (k : bytes) : option positive :=
+  if cf_v_key_strict v then
+    if is_empty k then None
+    else match cf_b64_len k with
+         | None => Some cf_E_key_decode
+         | Some n => if n =? 32 then None else Some cf_E_key_length
+         end
+  else
+    match cf_b64_len k with
+    | None => if is_empty k then None else Some cf_E_key_decode
+    | Some n => if (n =? 0) || (n =? 32) then None else Some cf_E_key_length
+    end.
 
 (** * NewClientConfig, NewProviderConfig, ProviderMetadata.Validate, NewJwksProvider *)
 
@@ -345,20 +367,25 @@ Definition cf_new_store (c : cf_cfg) : option positive :=
   else None.   (* the Redis named by the configuration is up: environment *)
 
 (** * ParseIngresses *)
-Definition cf_parse_ingress (s : bytes) : option positive :=
+(* strings.ContainsAny(path, "*{}") *)
+Definition cf_pattern_byte (c : N) : bool := (c =? 42) || (c =? 123) || (c =? 125).
+Definition cf_has_pattern (p : bytes) : bool := existsb cf_pattern_byte p.
+
+Definition cf_parse_ingress (v : cf_variant) (s : bytes) : option positive :=
   if is_empty s then Some cf_E_ing_empty
   else match parse_request_uri s with
        | None => Some cf_E_ing_parse
        | Some u =>
          if is_empty (u_host u) then Some cf_E_ing_host
          else if negb (beq (u_scheme u) cf_lit_http || beq (u_scheme u) cf_lit_https) then Some cf_E_ing_scheme
+         else if cf_v_ingress_strict v && cf_has_pattern (trim_right_slash (u_path u)) then Some cf_E_ing_pattern
          else None
        end.
 
-Definition cf_parse_ingresses (c : cf_cfg) : option positive :=
+Definition cf_parse_ingresses (v : cf_variant) (c : cf_cfg) : option positive :=
   match cf_ingresses c with
   | [] => Some cf_E_noingress
-  | l => cf_first_err cf_parse_ingress l
+  | l => cf_first_err (cf_parse_ingress v) l
   end.
 
 (** * router.New: r.Route(prefix + "/oauth2", ...) for every ingress path; chi's patNextSegment panics *)
@@ -409,34 +436,34 @@ Definition cf_router (c : cf_cfg) : option positive :=
   if forallb cf_route_ok (cf_ingresses c) then None else Some cf_E_route.
 
 (** * main.run after Initialize *)
-Definition cf_standalone (c : cf_cfg) (d : cf_disc) : option positive :=
+Definition cf_standalone (v : cf_variant) (c : cf_cfg) (d : cf_disc) : option positive :=
   cf_seq (cf_client_config c) (cf_seq (cf_provider_config c d) (cf_seq (cf_jwks_provider d)
-    (cf_seq (cf_new_store c) (cf_parse_ingresses c)))).
+    (cf_seq (cf_new_store c) (cf_parse_ingresses v c)))).
 
 Definition cf_sso_server_redirect (c : cf_cfg) : option positive :=
   if cf_url_ok (cf_ssoredirect c) then None else Some cf_E_sso_redirect.
 
-Definition cf_sso_proxy (c : cf_cfg) : option positive :=
-  cf_seq (cf_parse_ingresses c) (cf_seq (cf_new_store c)
+Definition cf_sso_proxy (v : cf_variant) (c : cf_cfg) : option positive :=
+  cf_seq (cf_parse_ingresses v c) (cf_seq (cf_new_store c)
     (if cf_url_ok (cf_ssoserverurl c) then None else Some cf_E_sso_serverurl)).
 
-Definition cf_handler (c : cf_cfg) (d : cf_disc) : option positive :=
+Definition cf_handler (v : cf_variant) (c : cf_cfg) (d : cf_disc) : option positive :=
   match cf_mode_of c with
-  | CfStandalone => cf_standalone c d
-  | CfSSOServer => cf_seq (cf_standalone c d) (cf_sso_server_redirect c)
-  | CfSSOProxy => cf_sso_proxy c
+  | CfStandalone => cf_standalone v c d
+  | CfSSOServer => cf_seq (cf_standalone v c d) (cf_sso_server_redirect c)
+  | CfSSOProxy => cf_sso_proxy v c
   | CfSSOInvalid => Some cf_E_sso_mode
   end.
 
-Definition cf_boot (c : cf_cfg) (d : cf_disc) : option positive :=
-  cf_seq (cf_validate c) (cf_seq (cf_key_check (cf_key c)) (cf_seq (cf_handler c d) (cf_router c))).
+Definition cf_boot (v : cf_variant) (c : cf_cfg) (d : cf_disc) : option positive :=
+  cf_seq (cf_validate v c) (cf_seq (cf_key_check v (cf_key c)) (cf_seq (cf_handler v c d) (cf_router c))).
 
 Definition cf_code (o : option positive) : Z := match o with Some e => Zpos e | None => 0%Z end.
 
 (** outcome of starting the binary: 0 = listening, otherwise the class of the first failing check *)
-Definition cf_run (r : cf_raw) (d : cf_disc) : Z :=
+Definition cf_run (v : cf_variant) (r : cf_raw) (d : cf_disc) : Z :=
   if cf_any_flag_bad r then Zpos cf_E_flag
   else if cf_any_env_bad r then Zpos cf_E_decode
-  else cf_code (cf_boot (cf_resolve_all r) d).
+  else cf_code (cf_boot v (cf_resolve_all r) d).
 
-Definition cf_starts (r : cf_raw) (d : cf_disc) : bool := (cf_run r d =? 0)%Z.
+Definition cf_starts (v : cf_variant) (r : cf_raw) (d : cf_disc) : bool := (cf_run v r d =? 0)%Z.
